@@ -194,6 +194,10 @@ pub struct RegSpec {
     pub cred_props: Option<bool>,
     pub prf: Option<PrfIn>,
     pub prf_hashed: Option<PrfIn>,
+    /// seed for the request members that must not influence the ceremony (timeout, hints,
+    /// attestation conveyance, attestation formats, authenticator attachment); 0 = all absent
+    #[serde(default)]
+    pub misc: u64,
 }
 
 #[derive(Serialize, Deserialize, Clone, Debug, PartialEq)]
@@ -205,6 +209,8 @@ pub struct AuthSpec {
     pub cdata: CData,
     pub prf: Option<PrfIn>,
     pub prf_hashed: Option<PrfIn>,
+    #[serde(default)]
+    pub misc: u64,
 }
 
 pub type Salt = (Vec<u8>, Option<Vec<u8>>);
